@@ -198,6 +198,10 @@ pub fn lex_long_decade(source: &[char]) -> Option<FoundToken> {
     if source[4] != 's' {
         return None;
     }
+    // `1990st` is the number 1990 with a (wrong) ordinal suffix, not the decade followed by `t`.
+    if source.get(5).is_some_and(|c| c.is_alphanumeric()) {
+        return None;
+    }
 
     Some(FoundToken {
         token: TokenKind::Decade,
